@@ -62,6 +62,24 @@ DECOMPOSING = ('MQTTOut', 'REST')  # normalisation splits the URI into host/port
 
 COMMON = dict(id='flt', log_path=False, outputs_metrics=False, outputs_filter=False, mq_log=False)
 
+# Option family: every option of the VideoIn source / VideoOut output grammar on a credential-bearing URI, per source
+# ('s:<suffix>') and filter-wide ('g:<name>', for VideoIn together with a file source), so that option-specific log lines
+# (e.g. "'sync' does not apply to videos which are not files in ...") are emitted
+FILE_SRC = 'file:///nonexistent/v.mp4'
+OPTS = {
+    'VideoIn':  ('s:!sync', 's:!loop', 's:!loop=2', 's:!maxfps=10', 's:!maxsize=640x480', 's:!resize=320+240lin', 's:!bgr', 's:!no-bgr',
+                 's:!sync!loop=2!maxfps=5!no-bgr', 'g:sync', 'g:loop', 'g:maxfps', 'g:maxsize', 'g:resize', 'g:bgr'),
+    'VideoOut': ('s:!fps', 's:!fps=15', 's:!segtime=1', 's:!bgr', 's:!no-bgr', 's:!crf=23', 'g:fps', 'g:fps-adaptive', 'g:segtime',
+                 'g:bgr', 'g:params'),
+}
+GLOBAL_OPTS = {
+    'g:sync': dict(sync=True), 'g:loop': dict(loop=2), 'g:maxfps': dict(maxfps=10), 'g:maxsize': dict(maxsize='640x480'),
+    'g:resize': dict(resize='320x240'), 'g:bgr': dict(bgr=False), 'g:fps': dict(fps=15), 'g:fps-adaptive': dict(fps=True),
+    'g:segtime': dict(segtime=1), 'g:params': dict(params={'crf': 23}),
+}
+OPT_PLACEMENTS = ('string', 'comma-space', 'list', 'records')
+OPT_FIELD      = {'VideoIn': 'sources', 'VideoOut': 'outputs'}
+
 
 # ---- case -> configuration -----------------------------------------------------------------------------------------------------
 
@@ -75,10 +93,32 @@ def placed(case):
     u1 = make_uri(case['scheme'], case['user'], case['ins'], case['tail'], HOST1)
     u2 = make_uri(case['scheme'], case['user'], case['ins'], case['tail'], HOST2)
 
+    opt    = case.get('opt') or ''
+    suffix = opt[2:] if opt.startswith('s:') else ''
+    p      = case['placement'].removeprefix('x-')
+    rk     = 'output' if case['field'] == 'outputs' else 'source'
+
+    if suffix and p != 'records':
+        u1, u2 = u1 + suffix, u2 + suffix
+
     if case['filter'] in ('VideoIn', 'ImageIn') and case['field'] == 'sources':
         u2 += ';other'  # input filters want one topic per source
-    p  = case['placement'].removeprefix('x-')
-    rk = 'output' if case['field'] == 'outputs' else 'source'
+
+    if opt:  # option family
+        both = [HOST1, HOST2]
+        file = opt.startswith('g:') and case['filter'] == 'VideoIn'  # a filter-wide option next to a file source
+
+        if p == 'string':
+            return (f'{FILE_SRC};filetopic, {u1}' if file else u1), [HOST1]
+        if p == 'comma-space':
+            return (f'{FILE_SRC};filetopic, ' if file else '') + f'{u1}, {u2}', both
+        if p == 'list':
+            return ([f'{FILE_SRC};filetopic'] if file else []) + [u1, u2], both
+        if p == 'records':
+            ro = {'options': _target().F.Filter.parse_options('x' + suffix)[1]} if suffix else {}
+
+            return ([{rk: FILE_SRC, 'topic': 'filetopic'}] if file else []) + \
+                [{rk: u1, 'topic': 'main', **ro}, {rk: u2.removesuffix(';other'), 'topic': 'other', **ro}], both
 
     if p == 'string':
         return u1, [HOST1]
@@ -109,6 +149,8 @@ def build_config(case):
     val, hosts = placed(case)
 
     base[EXTRA_KEY if case['field'] == 'extra' else case['field']] = val
+
+    base.update(GLOBAL_OPTS.get(case.get('opt'), {}))
 
     return base, hosts
 
@@ -196,7 +238,7 @@ class _Gear:
     """Stands in for vidgear VideoGear: two frames, then it waits to be stopped."""
 
     def __init__(self, source=None, **kw):
-        self.stream  = types.SimpleNamespace(framerate=25.0)
+        self.stream  = types.SimpleNamespace(framerate=1000.0)  # file sources are paced to their frame rate
         self.n       = 0
         self.stopped = threading.Event()
 
@@ -218,7 +260,11 @@ class _Gear:
 
 
 class _WriteGear:
-    def __init__(self, output=None, **kw): pass
+    opened = 0
+
+    def __init__(self, output=None, **kw):
+        _WriteGear.opened += 1
+
     def write(self, image): pass
     def close(self): pass
 
@@ -292,6 +338,7 @@ def _target():
         md.version = version
 
         _T.t = types.SimpleNamespace(F=F, hide=hide_uri_users_and_pwds, DummyMQ=DummyMQ, classes=classes,
+            video_out=importlib.import_module('openfilter.filter_runtime.filters.video_out'),
             Frame=F.Frame, FilterConfig=F.FilterConfig)
 
     return _T.t
@@ -334,6 +381,9 @@ def _regex_sig(case, leaf):
 
 def execute(case):
     """Run the real code for one case.  -> dict(status, sinks={name: [texts]}, config=final config or None, hosts)"""
+
+    if case['filter'] == 'VideoWriter':
+        return execute_writer(case)
 
     t          = _target()
     cls        = t.classes[case['filter']]
@@ -403,6 +453,9 @@ def execute(case):
                         inst.shutdown()
 
                         for vid in inst.mvreader.videos:
+                            if vid.sync_evt is not None:
+                                vid.sync_evt.set()  # harness clean-up: a 'sync' file reader waits for the next read()
+
                             vid.thread.join(3)
 
                 except Exception as exc:
@@ -419,7 +472,8 @@ def execute(case):
                     try:
                         frame = t.Frame(np.zeros((2, 2, 3), np.uint8), {'meta': {'src_fps': 15}}, 'BGR')
 
-                        inst.process({'main': frame, 'other': frame})
+                        for _ in range(3):  # adaptive fps opens the stream on the second frame
+                            inst.process({'main': frame, 'other': frame})
 
                     finally:
                         inst.shutdown()
@@ -434,6 +488,44 @@ def execute(case):
             inst.stop_logging()
         except Exception:
             pass
+
+    return out
+
+
+def execute_writer(case):
+    """VideoOut's adaptive-fps restart path: the real VideoWriter(uri, fps=True) with a stub WriteGear and a patched clock,
+    60 frames at 30 fps then 320 frames at 10 fps, so that write_adapt() decides to restart the RTSP stream."""
+
+    vo    = _target().video_out
+    uri   = make_uri(case['scheme'], case['user'], case['ins'], case['tail'], HOST1)
+    out   = dict(status='ok', sinks={}, config=None, hosts=[HOST1], raw={'output': uri}, restarts=0)
+    clock = [1_000_000_000]
+    real  = vo.time_ns
+    image = np.zeros((2, 2, 3), np.uint8)
+
+    with capture_logs() as msgs, fake_vidgear():
+        vo.time_ns = lambda: clock[0]
+        opened     = _WriteGear.opened
+
+        try:
+            writer = vo.VideoWriter(uri, fps=True)
+
+            for ms, n in ((33, 60), (100, 320)):
+                for _ in range(n):
+                    clock[0] += ms * 1_000_000
+
+                    writer.write(image)
+
+            writer.stop()
+
+        except Exception as exc:
+            out['status'] = f'setup-rejected: {type(exc).__name__}'
+        finally:
+            vo.time_ns = real
+
+        out['restarts'] = max(0, _WriteGear.opened - opened - 1)
+
+    out['sinks']['video-log'] = list(msgs)
 
     return out
 
@@ -506,7 +598,10 @@ def judge(case, res):
     # -- the rest of the URI stays readable: configuration log line and meta.src
     line = next((m for m in sinks.get('construct-log', ()) if '(config=' in m), None)
 
-    if line is None:
+    if case['filter'] == 'VideoWriter':
+        pass
+
+    elif line is None:
         add('C15/no-config-log-line', 'no Cls(config=...) line was logged during construction (harness or target changed?)')
 
     else:
@@ -538,40 +633,62 @@ def _uris(tier):
     return [(s, u, i, tl) for s in (QUICK_SCHEMES if tier == 'quick' else SCHEMES) for u in USERS for i in INS for tl in TAILS]
 
 
+def _opt_uris(tier):
+    return [(s, u, i, tl) for s in (('rtsp',) if tier == 'quick' else ('rtsp', 'rtmp', 'http', 'https')) for u in USERS for i in INS
+        for tl in TAILS]
+
+
 def _groups():
-    """(filter, field, placement, mode): one work item each; the URI domain is looped inside."""
+    """(filter, field, placement, mode, option): one work item each; the URI domain is looped inside."""
 
     for name, (_, _, _, fields) in FILTERS.items():
         for field in fields + ('extra',):
             for placement in (EXTRA_PLACEMENTS if field == 'extra' else FIELD_PLACEMENTS):
                 for mode in MODES:
-                    yield name, field, placement, mode
+                    yield name, field, placement, mode, None
+
+    for name, opts in OPTS.items():  # option family
+        for placement in OPT_PLACEMENTS:
+            for mode in MODES:
+                for opt in opts:
+                    yield name, OPT_FIELD[name], placement, mode, opt
+
+    yield 'VideoWriter', 'output', 'string', 'direct', 'adaptive-restart'
 
 
 def _case_key(c):
     return (c['user'] != 'u', c['ins'] != '', TAILS.index(c['tail']), c['mode'] != 'raw-dict',
-        (FIELD_PLACEMENTS + EXTRA_PLACEMENTS).index(c['placement']), list(FILTERS).index(c['filter']), c['field'],
-        SCHEMES.index(c['scheme']), c['user'], INS.index(c['ins']), c['mode'])
+        (FIELD_PLACEMENTS + EXTRA_PLACEMENTS).index(c['placement']), (list(FILTERS) + ['VideoWriter']).index(c['filter']), c['field'],
+        SCHEMES.index(c['scheme']), c['user'], INS.index(c['ins']), c['mode'], c.get('opt') or '')
 
 
 def _group_item(item):
-    tier, (name, field, placement, mode) = item
-    res = dict(n=0, nontrivial=0, status={}, viol={}, sinks=0)
+    tier, (name, field, placement, mode, opt) = item
+    res = dict(n=0, nontrivial=0, status={}, viol={}, sinks=0, restarts=0, opt_cases=0)
 
     with capture_logs():
-        _group_loop(tier, name, field, placement, mode, res)
+        _group_loop(tier, name, field, placement, mode, opt, res)
 
     return res
 
 
-def _group_loop(tier, name, field, placement, mode, res):
-    for scheme, user, ins, tail in _uris(tier):
+def _group_loop(tier, name, field, placement, mode, opt, res):
+    for scheme, user, ins, tail in (_opt_uris(tier) if opt else _uris(tier)):
         case = dict(filter=name, field=field, placement=placement, mode=mode, scheme=scheme, user=user, ins=ins, tail=tail)
+
+        if opt:
+            case['opt'] = opt
+            res['opt_cases'] += 1
+
         r, v = run_case(case)
         st   = r['status'].split(':')[0]
 
         res['n'] += 1
         res['status'][st] = res['status'].get(st, 0) + 1
+        res['restarts'] += r.get('restarts', 0)
+
+        if name == 'VideoWriter' and r['status'] == 'ok' and not r.get('restarts'):
+            raise AssertionError(f'harness: the adaptive-fps restart path was not reached for {case}')
 
         if r['sinks']:
             res['nontrivial'] += 1  # the filter was constructed far enough to emit something
@@ -580,7 +697,9 @@ def _group_loop(tier, name, field, placement, mode, res):
         for sig, text in v:
             key = _case_key(case)
             cur = res['viol'].get(sig)
-            txt = f"{name}(config={{... {EXTRA_KEY if field == 'extra' else field!r}: {placed(case)[0]!r} ...}}) [{mode}]: {text}"
+            txt = f"VideoWriter({r['raw']['output']!r}, fps=True), 30 fps dropping to 10 fps: {text}" if name == 'VideoWriter' else \
+                f"{name}(config={{... {EXTRA_KEY if field == 'extra' else field!r}: {placed(case)[0]!r}" \
+                f"{''.join(f', {k!r}: {v!r}' for k, v in GLOBAL_OPTS.get(opt, {}).items())} ...}}) [{mode}]: {text}"
 
             if cur is None:
                 res['viol'][sig] = [1, key, txt, case]
@@ -593,7 +712,7 @@ def _group_loop(tier, name, field, placement, mode, res):
 
 def run(rep):
     tier   = rep.tier
-    groups = [g for g in _groups() if not rep.only or rep.only in '/'.join(g)]
+    groups = [g for g in _groups() if not rep.only or rep.only in '/'.join(x or '' for x in g)]
     uris   = _uris(tier)
     viols  = {}
 
@@ -608,14 +727,22 @@ def run(rep):
         's3 and mqtt schemes are not opened (VideoIn.setup is run for rtsp/rtmp/http/https, VideoOut writers for rtsp)')
     rep.assumption('the user is taken from {u, u.x, empty}: an empty user is RFC 3986 valid userinfo (":password@")')
     rep.assumption(f'password = {M1} + special + {M2}; a leak is an occurrence of either half')
+    rep.assumption('option family: every VideoIn source / VideoOut output option, per source and filter-wide (VideoIn: next to a '
+        'file source), on rtsp URIs (thorough: rtsp, rtmp, http, https) x users x specials x tails, placements string / comma list / '
+        'list / records; VideoWriter adaptive restart: real VideoWriter(uri, fps=True), stub WriteGear, patched time_ns, 60 frames '
+        'at 30 fps then 320 at 10 fps (the run fails as a harness error if no restart happens)')
 
     rep.part('domain', filters=len(FILTERS), groups_filter_field_placement_mode=len(groups), schemes=len({u[0] for u in uris}),
-        users=len(USERS), password_specials=len(INS), tails=len(TAILS), uris=len(uris), product=len(groups) * len(uris))
+        users=len(USERS), password_specials=len(INS), tails=len(TAILS), uris=len(uris),
+        product=sum(len(_opt_uris(tier) if g[4] else uris) for g in groups),
+        option_groups=sum(1 for g in groups if g[4]), options_videoin=len(OPTS['VideoIn']), options_videoout=len(OPTS['VideoOut']),
+        option_family_uris=len(_opt_uris(tier)))
 
     for r in common.pmap(_group_item, [(tier, g) for g in groups]):
         rep.add('evaluations', r['n'])
         rep.add('distinct_nontrivial', r['nontrivial'])
-        rep.part('outcome', sink_texts_examined=r['sinks'], **{f'status_{k}': v for k, v in r['status'].items()})
+        rep.part('outcome', sink_texts_examined=r['sinks'], option_family_cases=r['opt_cases'],
+            adaptive_fps_stream_restarts_driven=r['restarts'], **{f'status_{k}': v for k, v in r['status'].items()})
 
         for sig, (n, key, text, case) in r['viol'].items():
             cur = viols.get(sig)
